@@ -698,6 +698,11 @@ func (t *Tr) loopHeader(li *loopInfo, b *ssa.BasicBlock, preds []*ssa.BasicBlock
 		t.c.assert(implies(t.reach[b], g))
 	}
 	t.assumeGlobalInvs(st, t.reach[b])
+	for _, gs := range t.ghostAt["loop"] {
+		if gs.callee == fmt.Sprint(li.ord) {
+			t.applyGhost(gs, t.loopEnv(li, st), st)
+		}
+	}
 }
 
 // loopMods: the components (possibly) modified by the body of a loop.
